@@ -240,7 +240,7 @@ def _is_identity(x, root, top=True, field=None):
     return False
 
 
-def identity_ctor(ctx, R, path, fields=None):
+def identity_ctor(ctx, R, path, fields=None, alias=None):
     """W7 a constructor that stores its like-named parameters stores them UNCHANGED: `Self { f, g, .. }` - field f of
     the struct literal is parameter f itself (looked at through value-preserving wrappers: clone, into, Some, and
     `opt.map(Cow::Borrowed / Cow::Owned / <tuple-struct ctor>)`); a constant, a comparison or a branch in between
@@ -256,9 +256,13 @@ def identity_ctor(ctx, R, path, fields=None):
             continue
         pn = param_names(b)
         byname = {v: k for k, v in pn.items()}
+        for f_, p_ in (alias or {}).items():
+            # field f_ is fed by the differently named parameter p_
+            if p_ in byname:
+                byname[f_] = byname[p_]
         e = ExprBuilder(b).place(0, ())
         aggs = [x for x in e.walk() if x.kind == 'agg' and x.extra and x.extra.get('ak') == 'adt' and x.extra.get('fields')
-                and len(set(x.extra['fields']) & set(byname)) >= 2]
+                and len(set(x.extra['fields']) & set(byname)) >= (1 if alias else 2)]
         if not aggs:
             ctx.note(R, '%s does not build its result as a struct literal over its parameters: identity wiring not evaluated' % path)
             continue
